@@ -428,10 +428,20 @@ def run_check(prop_id, tier, seed):
                     "--iters", str(cc["iters"]), "--out", out] + (["--pct"] if cc.get("pct") else [])
             p = subprocess.run([os.path.join(HARNESS, "target", "debug", "fihc")] + args, capture_output=True, text=True, timeout=1800)
             if p.returncode != 0:
-                raise ToolError("fihc failed: %s\n%s" % (p.stdout[-1000:], p.stderr[-3000:]))
-            s = json.loads(p.stdout.strip().splitlines()[-1])
-            ev["concurrent_runs"] += s["runs"]
-            ev["concurrent_aborted"] += s["aborted"]
+                # the process died inside a run (marker left behind): the code under test crashed it
+                try:
+                    cur = json.load(open(out + ".cur"))
+                except Exception:
+                    raise ToolError("fihc failed: %s\n%s" % (p.stdout[-1000:], p.stderr[-3000:]))
+                crashes.append({"prim": prim, "flavour": "slock-threads", "cfg": "thread schedule seed %s (%s)" % (cur["seed"], cur["schedule"]),
+                                "path": cur["iteration"], "signal": -p.returncode if p.returncode < 0 else p.returncode,
+                                "ops": [{"op": "threads", "fihc_args": args, "iteration": cur["iteration"]}], "consts": cur["consts"]})
+                ev["concurrent_runs"] += cur["iteration"]
+                log("threaded run %s seed %s crashed the process (rc %d) in iteration %d" % (prim, cur["seed"], p.returncode, cur["iteration"]))
+            else:
+                s = json.loads(p.stdout.strip().splitlines()[-1])
+                ev["concurrent_runs"] += s["runs"]
+                ev["concurrent_aborted"] += s["aborted"]
             add_trace_file(prim, out, "threads (shuttle %s) seed %d" % ("pct" if cc.get("pct") else "random", seed + 77 * i))
 
     # ---- phase 3b: regression histories (counterexamples found earlier), executed on the real code
